@@ -532,3 +532,895 @@ Proof.
 Qed.
 
 End Entries.
+
+(* ------------------------------------------------------------------ the two key equivalences *)
+Lemma list_eqb_N_eq (a b : list N) : list_eqb N.eqb a b = true <-> a = b.
+Proof. apply list_eqb_spec. intros; apply N.eqb_eq. Qed.
+
+Lemma value_eqb_eq a b : value_eqb a b = true <-> a = b.
+Proof.
+  destruct a, b; cbn; split; intros H; try discriminate; try reflexivity.
+  - apply Z.eqb_eq in H. congruence.
+  - injection H as ->. apply Z.eqb_refl.
+  - apply N.eqb_eq in H. congruence.
+  - injection H as ->. apply N.eqb_refl.
+  - apply list_eqb_N_eq in H. congruence.
+  - injection H as ->. apply list_eqb_N_eq. reflexivity.
+  - apply eqb_prop in H. congruence.
+  - injection H as ->. apply eqb_reflx.
+Qed.
+Lemma hkeq_refl a : hkeq a a = true.
+Proof. apply value_eqb_eq. reflexivity. Qed.
+Lemma hkeq_sym a b : hkeq a b = hkeq b a.
+Proof.
+  unfold hkeq. destruct (value_eqb a b) eqn:E.
+  - apply value_eqb_eq in E. subst. symmetry. apply hkeq_refl.
+  - destruct (value_eqb b a) eqn:E2; [|reflexivity]. apply value_eqb_eq in E2. subst.
+    rewrite hkeq_refl in E. discriminate.
+Qed.
+Lemma hkeq_trans a b c : hkeq a b = true -> hkeq b c = true -> hkeq a c = true.
+Proof. unfold hkeq. rewrite !value_eqb_eq. congruence. Qed.
+
+Lemma s_cmp_eq a b : s_cmp a b = Eq <-> a = b.
+Proof.
+  revert b. induction a as [|x a IH]; destruct b as [|y b]; cbn; split; intros H; try discriminate; try reflexivity.
+  - destruct (N.compare_spec x y); try discriminate. subst. f_equal. apply IH. exact H.
+  - injection H as -> ->. rewrite N.compare_refl. apply IH. reflexivity.
+Qed.
+
+Lemma okey_cmp_eq_cases a b :
+  okey_cmp a b = Eq ->
+  match a, b with
+  | VNull, VNull => True
+  | VBool x, VBool y => x = y
+  | VInt x, VInt y => x = y
+  | VStr x, VStr y => x = y
+  | VFloat x, VFloat y => (f_is_nan x = true /\ f_is_nan y = true) \/
+                          (f_is_nan x = false /\ f_is_nan y = false /\ f_key x = f_key y)
+  | _, _ => False
+  end.
+Proof.
+  destruct a, b; cbn; try discriminate; auto.
+  - intros H. apply Z.compare_eq in H. exact H.
+  - destruct (f_is_nan bits), (f_is_nan bits0); try discriminate; auto.
+    intros H. apply Z.compare_eq in H. auto.
+  - intros H. apply s_cmp_eq in H. exact H.
+  - destruct b, b0; try discriminate; auto.
+Qed.
+
+(* okey_cmp a . and okey_cmp b . coincide when a and b are equivalent keys *)
+Lemma okey_cmp_congr a b v : okey_cmp a b = Eq -> okey_cmp a v = okey_cmp b v.
+Proof.
+  intros H. apply okey_cmp_eq_cases in H.
+  destruct a, b; try contradiction; subst; try reflexivity.
+  destruct H as [[Ha Hb]|(Ha & Hb & Hk)]; destruct v; cbn; try reflexivity; rewrite Ha, Hb; try reflexivity.
+  rewrite Hk. reflexivity.
+Qed.
+Lemma okey_cmp_congr_r a b v : okey_cmp a b = Eq -> okey_cmp v a = okey_cmp v b.
+Proof.
+  intros H. apply okey_cmp_eq_cases in H.
+  destruct a, b; try contradiction; subst; try reflexivity.
+  destruct H as [[Ha Hb]|(Ha & Hb & Hk)]; destruct v; cbn; try reflexivity; rewrite Ha, Hb; try reflexivity.
+  rewrite Hk. reflexivity.
+Qed.
+Lemma okeq_refl a : okeq a a = true.
+Proof.
+  unfold okeq. destruct a; cbn; try reflexivity.
+  - rewrite Z.compare_refl. reflexivity.
+  - destruct (f_is_nan bits); [reflexivity|]. rewrite Z.compare_refl. reflexivity.
+  - replace (s_cmp s s) with Eq by (symmetry; apply s_cmp_eq; reflexivity). reflexivity.
+  - destruct b; reflexivity.
+Qed.
+Lemma okeq_true a b : okeq a b = true <-> okey_cmp a b = Eq.
+Proof. unfold okeq. destruct (okey_cmp a b); split; intros; try discriminate; reflexivity. Qed.
+Lemma okeq_trans a b c : okeq a b = true -> okeq b c = true -> okeq a c = true.
+Proof.
+  rewrite !okeq_true. intros H1 H2. rewrite (okey_cmp_congr _ _ _ H1). exact H2.
+Qed.
+Lemma okeq_sym a b : okeq a b = okeq b a.
+Proof.
+  assert (forall x y, okeq x y = true -> okeq y x = true).
+  { intros x y H. apply okeq_true in H. apply okeq_true.
+    rewrite (okey_cmp_congr_r x y y H). apply okeq_true, okeq_refl. }
+  destruct (okeq a b) eqn:E; [symmetry; apply H; exact E|].
+  destruct (okeq b a) eqn:E2; [|reflexivity]. apply H in E2. congruence.
+Qed.
+
+(* comparable values: the ordered key order is partial_cmp_value *)
+Lemma okey_vcmp x v o : vcmp x v = Some o -> okey_cmp x v = o.
+Proof.
+  destruct x, v; cbn; try discriminate.
+  - intros [= <-]. reflexivity.
+  - unfold f_cmp. destruct (f_is_nan bits), (f_is_nan bits0); cbn; try discriminate. intros [= <-]. reflexivity.
+  - intros [= <-]. reflexivity.
+Qed.
+
+(* valid float bit patterns are below 2^64 *)
+Definition valid_value (v : value) : Prop := match v with VFloat b => b < 2 ^ 64 | _ => True end.
+
+Ltac Zify.zify_post_hook ::= Z.div_mod_to_equations.
+Lemma f_key_inj x y :
+  x < 2 ^ 64 -> y < 2 ^ 64 -> f_key x = f_key y -> x = y \/ (f_is_zero x = true /\ f_is_zero y = true).
+Proof.
+  unfold f_key, f_is_zero. intros Hx Hy.
+  change (2 ^ 63) with 9223372036854775808 in *. change (2 ^ 64) with 18446744073709551616 in *.
+  destruct (N.ltb_spec x 9223372036854775808) as [Lx|Lx], (N.ltb_spec y 9223372036854775808) as [Ly|Ly]; intros HK.
+  - left. lia.
+  - right. split; apply N.eqb_eq; lia.
+  - right. split; apply N.eqb_eq; lia.
+  - left. lia.
+Qed.
+
+(* the key function of the hash index respects == (this is where zero normalisation is needed) *)
+Lemma hash_key_respects_veq x v :
+  valid_value x -> valid_value v -> veq x v = true -> hash_key true x = hash_key true v.
+Proof.
+  destruct x, v; cbn; intros Hx Hv H; try discriminate; try reflexivity.
+  - apply Z.eqb_eq in H. congruence.
+  - unfold f_eq, f_cmp in H. destruct (f_is_nan bits || f_is_nan bits0); [discriminate|].
+    destruct (Z.compare_spec (f_key bits) (f_key bits0)); try discriminate.
+    destruct (f_key_inj _ _ Hx Hv H0) as [->|[A B]]; [reflexivity|]. rewrite A, B. reflexivity.
+  - apply list_eqb_N_eq in H. congruence.
+  - apply eqb_prop in H. congruence.
+Qed.
+(* ... and without it the lemma is false (F-C04-negzero) *)
+Lemma hash_key_raw_bits_refuted :
+  exists x v, valid_value x /\ valid_value v /\ veq x v = true /\ hash_key false x <> hash_key false v.
+Proof.
+  exists (VFloat 9223372036854775808), (VFloat 0). repeat split; try (vm_compute; congruence); discriminate.
+Qed.
+
+(* ------------------------------------------------------------------ index invariant and the index path *)
+(* exact content of one index: the ids filed under (an entry equivalent to) k are precisely the live
+   rows whose key is equivalent to k; keys pairwise inequivalent; no id filed twice *)
+Definition ix_inv (keq : value -> value -> bool) (keyf : value -> value)
+           (t : list slot) (col : N) (ix : entries) : Prop :=
+  distinct keq ix /\ NoDup (all_ids ix) /\
+  forall k id, holds keq ix k id <->
+               exists cs, In (id, cs) (live t) /\ keq (keyf (cell_of id cs col)) k = true.
+
+Definition st_inv (norm : bool) (st : state) : Prop :=
+  Forall (fun ce => ix_inv hkeq (hash_key norm) (tbl st) (fst ce) (snd ce)) (hidx st) /\
+  Forall (fun ce => ix_inv okeq (fun v => v) (tbl st) (fst ce) (snd ce)) (bidx st).
+
+Definition valid_tbl (t : list slot) : Prop := Forall (fun sl => Forall valid_value (cells sl)) t.
+Fixpoint valid_cond (c : cond) : Prop :=
+  match c with
+  | CTrue => True
+  | CCmp _ _ v => valid_value v
+  | CAnd a b | COr a b => valid_cond a /\ valid_cond b
+  end.
+
+Lemma ix_find_in ixs col ix : ix_find ixs col = Some ix -> In (col, ix) ixs.
+Proof.
+  unfold ix_find. destruct (find (fun ce => fst ce =? col) ixs) as [[c i]|] eqn:E; [|discriminate].
+  intros [= <-]. apply find_some in E. destruct E as [Hin Hc]. cbn in Hc. apply N.eqb_eq in Hc. subst. exact Hin.
+Qed.
+
+Lemma live_valid t id cs : valid_tbl t -> In (id, cs) (live t) -> Forall valid_value cs.
+Proof.
+  intros Hv H. apply live_from_nth in H. destruct H as (_ & s & Hn & _ & <-).
+  unfold valid_tbl in Hv. rewrite Forall_forall in Hv. apply Hv. eapply nth_error_In. exact Hn.
+Qed.
+
+Lemma get_cell id cs col y :
+  get_with_id (id, cs) col = Some y -> cell_of id cs col = y /\ (Forall valid_value cs -> valid_value y).
+Proof.
+  unfold get_with_id, cell_of. cbn [fst snd]. destruct (col =? ID_COL).
+  - intros [= <-]. split; [reflexivity|]. intros _. exact I.
+  - intros H. split; [apply nth_error_nth; exact H|].
+    intros Hf. rewrite Forall_forall in Hf. apply Hf. eapply nth_error_In. exact H.
+Qed.
+
+Lemma nodup_select_entries (p : value * list N -> bool) (ix : entries) :
+  NoDup (all_ids ix) -> NoDup (flat_map (fun e => if p e then snd e else []) ix).
+Proof.
+  unfold all_ids. induction ix as [|e r IH]; cbn [flat_map map concat]; intros Hn; [constructor|].
+  destruct (nodup_app_inv _ _ Hn) as (H1 & H2 & H3).
+  destruct (p e); cbn [app]; [|apply IH; exact H2].
+  apply nodup_app; auto. intros x Hx1 Hx2. apply (H3 x Hx1).
+  apply in_flat_map in Hx2. destruct Hx2 as (e' & He' & Hx2). destruct (p e'); [|contradiction].
+  apply in_concat. exists (snd e'). split; [apply in_map; exact He'|exact Hx2].
+Qed.
+
+Lemma lookup_sound st c cands :
+  st_inv true st -> valid_tbl (tbl st) -> valid_cond c ->
+  try_index_lookup true st c = Some cands ->
+  NoDup cands /\ forall r, In r (live (tbl st)) -> evaluate c r = true -> In (fst r) cands.
+Proof.
+  intros [Hh Hb] Hvt. revert cands.
+  induction c as [|op col v|a IHa b IHb|a IHa b IHb]; intros cands Hvc H; cbn [try_index_lookup] in H; try discriminate.
+  - destruct (op =? 0) eqn:E0.
+    + (* Eq through the hash index *)
+      destruct (ix_find (hidx st) col) as [ix|] eqn:Ef; [|discriminate]. injection H as <-.
+      apply ix_find_in in Ef. rewrite Forall_forall in Hh. specialize (Hh _ Ef). cbn [fst snd] in Hh.
+      destruct Hh as (Hd & Hn & Hex). split; [apply ix_get_nodup; exact Hn|].
+      intros [id cs] Hl He. cbn [fst]. cbn [evaluate] in He. unfold eval_leaf in He. rewrite E0 in He.
+      destruct (get_with_id (id, cs) col) as [y|] eqn:Eg; [|discriminate].
+      destruct (get_cell _ _ _ _ Eg) as [Ec Hvy].
+      apply (ix_get_spec hkeq hkeq_sym hkeq_trans); [exact Hd|].
+      apply Hex. exists cs. split; [exact Hl|]. rewrite Ec. unfold hk.
+      rewrite (hash_key_respects_veq y v); [apply hkeq_refl|apply Hvy; eapply live_valid; eassumption|exact Hvc|exact He].
+    + destruct (op =? 1) eqn:E1; [discriminate|].
+      (* range through the ordered index *)
+      destruct (ix_find (bidx st) col) as [ix|] eqn:Ef; [|discriminate]. injection H as <-.
+      apply ix_find_in in Ef. rewrite Forall_forall in Hb. specialize (Hb _ Ef). cbn [fst snd] in Hb.
+      destruct Hb as (Hd & Hn & Hex). split; [apply nodup_select_entries; exact Hn|].
+      intros [id cs] Hl He. cbn [fst]. cbn [evaluate] in He. unfold eval_leaf in He. rewrite E0, E1 in He.
+      destruct (get_with_id (id, cs) col) as [y|] eqn:Eg; [|discriminate].
+      destruct (get_cell _ _ _ _ Eg) as [Ec _].
+      destruct (vcmp y v) as [o|] eqn:Ev; [|discriminate].
+      destruct (proj2 (Hex y id)) as (k' & ids & Hin & Hk & Hid).
+      { exists cs. split; [exact Hl|]. rewrite Ec. apply okeq_refl. }
+      unfold range_ids. apply in_flat_map. exists (k', ids). split; [exact Hin|]. cbn [fst snd].
+      apply okeq_true in Hk. rewrite (okey_cmp_congr _ _ v Hk), (okey_vcmp _ _ _ Ev).
+      unfold cmp_test in He. rewrite He. exact Hid.
+  - destruct Hvc as [Va Vb].
+    destruct (try_index_lookup true st a) as [x|] eqn:Ea.
+    + injection H as <-. destruct (IHa _ Va eq_refl) as [N1 C1]. split; [exact N1|].
+      intros r Hl He. cbn [evaluate] in He. apply andb_true_iff in He. apply C1; tauto.
+    + destruct (IHb _ Vb H) as [N1 C1]. split; [exact N1|].
+      intros r Hl He. cbn [evaluate] in He. apply andb_true_iff in He. apply C1; tauto.
+Qed.
+
+Theorem select_exact st c :
+  st_inv true st -> valid_tbl (tbl st) -> valid_cond c -> select true st c = scan (tbl st) c.
+Proof.
+  intros Hi Hv Hc. unfold select. destruct (try_index_lookup true st c) as [cands|] eqn:E; [|reflexivity].
+  destruct (lookup_sound st c cands Hi Hv Hc E) as [Hn Hcov]. apply recheck_exact; assumption.
+Qed.
+
+(* limit / offset, cursor, count, min / max: functions of `select`, hence of `scan` *)
+Corollary select_with_limit_exact st c lim off :
+  st_inv true st -> valid_tbl (tbl st) -> valid_cond c ->
+  select_with_limit true st c lim off = firstn (N.to_nat lim) (skipn (N.to_nat off) (scan (tbl st) c)).
+Proof. intros. unfold select_with_limit. rewrite select_exact by assumption. reflexivity. Qed.
+Corollary select_iter_exact st c lim off :
+  st_inv true st -> valid_tbl (tbl st) -> valid_cond c ->
+  select_iter true st c lim off =
+  if lim =? 0 then skipn (N.to_nat off) (scan (tbl st) c)
+  else firstn (N.to_nat lim) (skipn (N.to_nat off) (scan (tbl st) c)).
+Proof. intros. unfold select_iter, select_with_limit. rewrite select_exact by assumption. reflexivity. Qed.
+Corollary count_exact st c :
+  st_inv true st -> valid_tbl (tbl st) -> valid_cond c ->
+  count true st c = N.of_nat (length (scan (tbl st) c)).
+Proof.
+  intros. unfold count. destruct c; try (rewrite select_exact by assumption; reflexivity).
+  unfold scan. f_equal. clear. induction (live (tbl st)) as [|x l IH]; cbn; [reflexivity|]. f_equal. exact IH.
+Qed.
+Corollary agg_exact st c col :
+  st_inv true st -> valid_tbl (tbl st) -> valid_cond c ->
+  agg_min true st c col = agg_best Lt col (scan (tbl st) c) /\
+  agg_max true st c col = agg_best Gt col (scan (tbl st) c).
+Proof. intros. unfold agg_min, agg_max. rewrite select_exact by assumption. split; reflexivity. Qed.
+
+Theorem select_columnar_exact st c :
+  st_inv true st -> valid_tbl (tbl st) -> valid_cond c ->
+  (length (sch st) <= 1000)%nat -> wt_table (sch st) (tbl st) ->
+  select_columnar true st c = scan (tbl st) c.
+Proof.
+  intros Hi Hv Hc Hn Hwt. unfold select_columnar.
+  destruct (negb _ && forallb _ _); [|apply select_exact; assumption].
+  destruct (vfilter (sch st) (tbl st) c) as [bits|] eqn:E; [|apply select_exact; assumption].
+  eapply vectorised_exact; eassumption.
+Qed.
+
+(* ------------------------------------------------------------------ invariant over an abstract row set *)
+Section RowSets.
+Variable keq : value -> value -> bool.
+Hypothesis keq_refl : forall a, keq a a = true.
+Hypothesis keq_sym : forall a b, keq a b = keq b a.
+Hypothesis keq_trans : forall a b c, keq a b = true -> keq b c = true -> keq a c = true.
+Variable keyf : value -> value.
+Variable col : N.
+
+Definition inv_R (R : N -> list value -> Prop) (ix : entries) : Prop :=
+  distinct keq ix /\ NoDup (all_ids ix) /\
+  forall k id, holds keq ix k id <-> exists cs, R id cs /\ keq (keyf (cell_of id cs col)) k = true.
+
+Lemma inv_R_ext R R' ix : (forall i c, R i c <-> R' i c) -> inv_R R ix -> inv_R R' ix.
+Proof.
+  intros HE (A & B & C). split; [exact A|]. split; [exact B|].
+  intros k id. rewrite C. split; intros (cs & H1 & H2); exists cs; (split; [apply HE; exact H1|exact H2]).
+Qed.
+
+Lemma inv_R_empty : inv_R (fun _ _ => False) [].
+Proof.
+  split; [exact I|]. split; [constructor|]. intros k id. split.
+  - intros (? & ? & [] & _).
+  - intros (? & [] & _).
+Qed.
+
+Lemma inv_R_add R ix id cs0 :
+  inv_R R ix -> (forall cs, ~ R id cs) ->
+  inv_R (fun i c => R i c \/ (i = id /\ c = cs0)) (ix_add keq ix (keyf (cell_of id cs0 col)) id).
+Proof.
+  intros (A & B & C) Hfresh. split; [apply ix_add_distinct; exact A|]. split.
+  - apply ix_add_nodup; [exact B|]. intros Hin. apply (all_ids_in keq keq_refl) in Hin. destruct Hin as (k & Hk).
+    apply C in Hk. destruct Hk as (cs & HR & _). exact (Hfresh cs HR).
+  - intros k i. rewrite (ix_add_holds keq keq_sym keq_trans) by exact A. rewrite C. split.
+    + intros [(cs & H1 & H2)|[H1 ->]]; [exists cs; auto|]. exists cs0. split; [right; auto|exact H1].
+    + intros (cs & [H1|[-> ->]] & H2); [left; exists cs; auto|right; auto].
+Qed.
+
+Lemma inv_R_remove R ix id cs0 :
+  inv_R R ix -> (forall c, R id c -> c = cs0) ->
+  inv_R (fun i c => R i c /\ i <> id) (ix_remove keq ix (keyf (cell_of id cs0 col)) id).
+Proof.
+  intros (A & B & C) Hfun. split; [apply ix_remove_distinct; exact A|]. split; [apply ix_remove_nodup; exact B|].
+  intros k i. rewrite (ix_remove_holds keq keq_sym keq_trans) by exact A. rewrite C. split.
+  - intros [(cs & H1 & H2) Hneg]. exists cs. split; [|exact H2]. split; [exact H1|].
+    intros ->. apply Hneg. split; [|reflexivity]. rewrite (Hfun _ H1) in H2. exact H2.
+  - intros (cs & [H1 Hne] & H2). split; [exists cs; auto|]. intros [_ ->]. apply Hne. reflexivity.
+Qed.
+End RowSets.
+
+(* ix_inv is inv_R over the live rows *)
+Lemma ix_inv_R keq keyf t col ix :
+  ix_inv keq keyf t col ix <-> inv_R keq keyf col (fun i c => In (i, c) (live t)) ix.
+Proof. reflexivity. Qed.
+
+(* ------------------------------------------------------------------ how table edits change the live rows *)
+Lemma live_snoc t s i c :
+  In (i, c) (live (t ++ [s])) <->
+  In (i, c) (live t) \/ (i = N.of_nat (length t) + 1 /\ alive s = true /\ c = cells s).
+Proof.
+  unfold live. rewrite live_from_app, in_app_iff. cbn [live_from]. rewrite N.add_0_l, app_nil_r.
+  destruct (alive s); cbn [In]; split.
+  - intros [H|[H|[]]]; [left; exact H|]. injection H as <- <-. right. auto.
+  - intros [H|(-> & _ & ->)]; [left; exact H|right; left; reflexivity].
+  - intros [H|[]]; left; exact H.
+  - intros [H|(_ & H & _)]; [left; exact H|discriminate].
+Qed.
+
+Lemma live_replace pre s s' r i c :
+  In (i, c) (live (pre ++ s' :: r)) <->
+  (In (i, c) (live (pre ++ s :: r)) /\ i <> N.of_nat (length pre) + 1) \/
+  (i = N.of_nat (length pre) + 1 /\ alive s' = true /\ c = cells s').
+Proof.
+  unfold live. rewrite !live_from_app, !in_app_iff. cbn [live_from]. rewrite !N.add_0_l, !in_app_iff.
+  set (n := N.of_nat (length pre)).
+  assert (Hpre : In (i, c) (live_from 0 pre) -> i <> n + 1).
+  { intros H. apply live_from_bounds in H. cbn [fst] in H. subst n. lia. }
+  assert (Hr : In (i, c) (live_from (n + 1) r) -> i <> n + 1).
+  { intros H. apply live_from_bounds in H. cbn [fst] in H. lia. }
+  split.
+  - intros [H|[H|H]].
+    + left. split; [left; exact H|apply Hpre; exact H].
+    + destruct (alive s'); [|contradiction]. destruct H as [H|[]]. injection H as <- <-. right. auto.
+    + left. split; [right; right; exact H|apply Hr; exact H].
+  - intros [[[H|[H|H]] Hne]|(-> & Ha & ->)].
+    + left. exact H.
+    + destruct (alive s); [|contradiction]. destruct H as [H|[]]. injection H as <- <-. congruence.
+    + right. right. exact H.
+    + right. left. rewrite Ha. left. reflexivity.
+Qed.
+
+Lemma live_mid pre s r : alive s = true -> In (N.of_nat (length pre) + 1, cells s) (live (pre ++ s :: r)).
+Proof.
+  intros Ha. unfold live. rewrite live_from_app, in_app_iff. right. cbn [live_from]. rewrite Ha, N.add_0_l. left. reflexivity.
+Qed.
+
+(* ------------------------------------------------------------------ assignments *)
+Lemma set_nth_length {A} (l : list A) n x : length (set_nth l n x) = length l.
+Proof. revert n. induction l as [|a l IH]; intros [|n]; cbn; auto. Qed.
+Lemma nth_set_nth {A} (l : list A) n x i d :
+  (n < length l)%nat -> nth i (set_nth l n x) d = if (i =? n)%nat then x else nth i l d.
+Proof.
+  revert n i. induction l as [|a l IH]; intros [|n] [|i] H; cbn in *; try lia; try reflexivity.
+  apply IH. lia.
+Qed.
+Lemma nth_set_nth_out {A} (l : list A) n x i d : (length l <= n)%nat -> nth i (set_nth l n x) d = nth i l d.
+Proof.
+  revert n i. induction l as [|a l IH]; intros [|n] [|i] H; cbn in *; try lia; try reflexivity.
+  apply IH. lia.
+Qed.
+
+Lemma apply_sets_length cs sets : length (apply_sets cs sets) = length cs.
+Proof.
+  unfold apply_sets. revert cs. induction sets as [|[c v] r IH]; intros cs; cbn [fold_left]; [reflexivity|].
+  rewrite IH. apply set_nth_length.
+Qed.
+
+Lemma set_of_in sets c v : set_of sets c = Some v -> exists c', In (c', v) sets /\ c' = c.
+Proof.
+  unfold set_of. destruct (find (fun cv => fst cv =? c) sets) as [[c' v']|] eqn:E; [|discriminate].
+  intros [= <-]. apply find_some in E. destruct E as [Hin Hc]. cbn in Hc. apply N.eqb_eq in Hc. eauto.
+Qed.
+
+Lemma nth_apply_sets cs sets (col : N) :
+  NoDup (map fst sets) -> (forall c v, In (c, v) sets -> (N.to_nat c < length cs)%nat) ->
+  nth (N.to_nat col) (apply_sets cs sets) VNull =
+  match set_of sets col with Some nv => nv | None => nth (N.to_nat col) cs VNull end.
+Proof.
+  unfold apply_sets, set_of. revert cs. induction sets as [|[c v] r IH]; intros cs Hnd Hlt; cbn [fold_left find fst snd map].
+  - reflexivity.
+  - cbn [map fst] in Hnd. inversion Hnd as [|? ? Hni Hnd']; subst.
+    rewrite IH; [|exact Hnd'|].
+    + destruct (N.eqb_spec c col) as [->|Hne].
+      * assert (find (fun cv => fst cv =? col) r = None) as ->.
+        { destruct (find _ r) as [[c' v']|] eqn:E; [|reflexivity]. apply find_some in E. destruct E as [Hin Hc].
+          cbn in Hc. apply N.eqb_eq in Hc. subst. exfalso. apply Hni. apply in_map_iff. exists (col, v'). auto. }
+        rewrite nth_set_nth by (eapply Hlt; left; reflexivity). rewrite Nat.eqb_refl. reflexivity.
+      * destruct (find (fun cv => fst cv =? col) r); [reflexivity|].
+        rewrite nth_set_nth by (eapply Hlt; left; reflexivity).
+        replace (N.to_nat col =? N.to_nat c)%nat with false; [reflexivity|].
+        symmetry. apply Nat.eqb_neq. lia.
+    + intros c' v' Hin. rewrite set_nth_length. eapply Hlt. right. exact Hin.
+Qed.
+
+(* ------------------------------------------------------------------ one index under the DML of one row *)
+Section Preserve.
+Variable keq : value -> value -> bool.
+Hypothesis keq_refl : forall a, keq a a = true.
+Hypothesis keq_sym : forall a b, keq a b = keq b a.
+Hypothesis keq_trans : forall a b c, keq a b = true -> keq b c = true -> keq a c = true.
+Variable keyf : value -> value.
+
+Lemma inv_insert t col ix vals :
+  ix_inv keq keyf t col ix ->
+  ix_inv keq keyf (t ++ [Slot true vals]) col
+         (ix_add keq ix (keyf (cell_of (N.of_nat (length t) + 1) vals col)) (N.of_nat (length t) + 1)).
+Proof.
+  intros H. apply ix_inv_R in H. apply ix_inv_R.
+  eapply inv_R_ext; [|apply (inv_R_add keq keq_refl keq_sym keq_trans keyf col _ ix _ vals H)].
+  - intros i c. cbn beta. rewrite live_snoc. cbn [alive cells]. tauto.
+  - intros cs Hin. apply live_from_bounds in Hin. cbn [fst] in Hin. lia.
+Qed.
+
+Lemma inv_delete pre s r col ix :
+  alive s = true -> ix_inv keq keyf (pre ++ s :: r) col ix ->
+  ix_inv keq keyf (pre ++ Slot false (cells s) :: r) col
+         (ix_remove keq ix (keyf (cell_of (N.of_nat (length pre) + 1) (cells s) col)) (N.of_nat (length pre) + 1)).
+Proof.
+  intros Ha H. apply ix_inv_R in H. apply ix_inv_R.
+  eapply inv_R_ext; [|apply (inv_R_remove keq keq_sym keq_trans keyf col _ ix _ (cells s) H)].
+  - intros i c. cbn beta. rewrite (live_replace pre s (Slot false (cells s)) r). cbn [alive]. split.
+    + intros [H1 H2]. left. auto.
+    + intros [H1|(_ & H1 & _)]; [exact H1|discriminate].
+  - intros c Hc. pose proof (live_mid pre s r Ha) as Hm.
+    pose proof (live_unique _ _ _ Hc Hm eq_refl) as E. congruence.
+Qed.
+
+Lemma inv_update pre s r col ix cs' :
+  alive s = true -> ix_inv keq keyf (pre ++ s :: r) col ix ->
+  ix_inv keq keyf (pre ++ Slot true cs' :: r) col
+         (ix_add keq (ix_remove keq ix (keyf (cell_of (N.of_nat (length pre) + 1) (cells s) col)) (N.of_nat (length pre) + 1))
+                 (keyf (cell_of (N.of_nat (length pre) + 1) cs' col)) (N.of_nat (length pre) + 1)).
+Proof.
+  intros Ha H. apply ix_inv_R in H. apply ix_inv_R.
+  set (id := N.of_nat (length pre) + 1) in *.
+  assert (Hfun : forall c, In (id, c) (live (pre ++ s :: r)) -> c = cells s).
+  { intros c Hc. pose proof (live_mid pre s r Ha) as Hm. pose proof (live_unique _ _ _ Hc Hm eq_refl) as E. congruence. }
+  pose proof (inv_R_remove keq keq_sym keq_trans keyf col _ ix id (cells s) H Hfun) as H1.
+  eapply inv_R_ext; [|apply (inv_R_add keq keq_refl keq_sym keq_trans keyf col _ _ id cs' H1)].
+  - intros i c. cbn beta. rewrite (live_replace pre s (Slot true cs') r). cbn [alive cells]. fold id. tauto.
+  - intros cs [_ Hne]. apply Hne. reflexivity.
+Qed.
+
+Lemma inv_update_same pre s r col ix cs' :
+  alive s = true -> cell_of (N.of_nat (length pre) + 1) cs' col = cell_of (N.of_nat (length pre) + 1) (cells s) col ->
+  ix_inv keq keyf (pre ++ s :: r) col ix -> ix_inv keq keyf (pre ++ Slot true cs' :: r) col ix.
+Proof.
+  intros Ha Hc (A & B & C). split; [exact A|]. split; [exact B|].
+  set (id := N.of_nat (length pre) + 1) in *.
+  assert (Hfun : forall c, In (id, c) (live (pre ++ s :: r)) -> c = cells s).
+  { intros c Hc'. pose proof (live_mid pre s r Ha) as Hm. pose proof (live_unique _ _ _ Hc' Hm eq_refl) as E. congruence. }
+  intros k i. rewrite C. split.
+  - intros (cs & H1 & H2). destruct (N.eq_dec i id) as [->|Hne].
+    + exists cs'. split; [apply (live_replace pre s (Slot true cs') r); right; cbn; auto|].
+      rewrite Hc. rewrite <- (Hfun _ H1). exact H2.
+    + exists cs. split; [apply (live_replace pre s (Slot true cs') r); left; auto|exact H2].
+  - intros (cs & H1 & H2). apply (live_replace pre s (Slot true cs') r) in H1. cbn [alive cells] in H1. fold id in H1.
+    destruct H1 as [[H1 Hne]|(-> & _ & ->)].
+    + exists cs. auto.
+    + exists (cells s). split; [apply live_mid; exact Ha|]. rewrite <- Hc. exact H2.
+Qed.
+End Preserve.
+
+(* ------------------------------------------------------------------ all indexes of a table *)
+Definition ixs_inv keq keyf (t : list slot) (ixs : list (N * entries)) : Prop :=
+  Forall (fun ce => ix_inv keq keyf t (fst ce) (snd ce)) ixs.
+
+Definition hkf := hash_key true.
+Definition idf (v : value) : value := v.
+
+Lemma ixs_insert keq keyf t ixs vals :
+  (forall a, keq a a = true) -> (forall a b, keq a b = keq b a) ->
+  (forall a b c, keq a b = true -> keq b c = true -> keq a c = true) ->
+  ixs_inv keq keyf t ixs ->
+  ixs_inv keq keyf (t ++ [Slot true vals]) (add_all keyf keq ixs (N.of_nat (length t) + 1) vals).
+Proof.
+  intros R S T H. unfold ixs_inv, add_all in *. rewrite Forall_forall in *. intros ce Hin.
+  apply in_map_iff in Hin. destruct Hin as (ce0 & <- & Hin0). cbn [fst snd].
+  apply inv_insert; auto.
+Qed.
+
+Lemma ixs_delete keq keyf pre s r ixs :
+  (forall a b, keq a b = keq b a) ->
+  (forall a b c, keq a b = true -> keq b c = true -> keq a c = true) ->
+  alive s = true -> ixs_inv keq keyf (pre ++ s :: r) ixs ->
+  ixs_inv keq keyf (pre ++ Slot false (cells s) :: r)
+          (remove_all keyf keq ixs (N.of_nat (length pre) + 1) (cells s)).
+Proof.
+  intros S T Ha H. unfold ixs_inv, remove_all in *. rewrite Forall_forall in *. intros ce Hin.
+  apply in_map_iff in Hin. destruct Hin as (ce0 & <- & Hin0). cbn [fst snd].
+  apply inv_delete; auto.
+Qed.
+
+Definition sets_ok (sets : list (N * value)) (n : nat) : Prop :=
+  NoDup (map fst sets) /\ (forall c v, In (c, v) sets -> (N.to_nat c < n)%nat) /\ (n <= 1000)%nat.
+
+Lemma cell_apply_sets id cs sets col :
+  sets_ok sets (length cs) ->
+  cell_of id (apply_sets cs sets) col =
+  match set_of sets col with Some nv => nv | None => cell_of id cs col end.
+Proof.
+  intros (Hnd & Hlt & Hn). unfold cell_of. destruct (N.eqb_spec col ID_COL) as [->|Hne].
+  - destruct (set_of sets ID_COL) as [nv|] eqn:E; [|reflexivity].
+    apply set_of_in in E. destruct E as (c' & Hin & ->). apply Hlt in Hin. unfold ID_COL in Hin. lia.
+  - apply nth_apply_sets; assumption.
+Qed.
+
+Lemma ixs_update keq keyf pre s r ixs sets :
+  (forall a, keq a a = true) -> (forall a b, keq a b = keq b a) ->
+  (forall a b c, keq a b = true -> keq b c = true -> keq a c = true) ->
+  alive s = true -> sets_ok sets (length (cells s)) -> ixs_inv keq keyf (pre ++ s :: r) ixs ->
+  ixs_inv keq keyf (pre ++ Slot true (apply_sets (cells s) sets) :: r)
+          (upd_ix keyf keq ixs (N.of_nat (length pre) + 1) (cells s) sets).
+Proof.
+  intros R S T Ha Hok H. unfold ixs_inv, upd_ix in *. rewrite Forall_forall in *. intros ce Hin.
+  apply in_map_iff in Hin. destruct Hin as (ce0 & <- & Hin0). specialize (H _ Hin0).
+  pose proof (cell_apply_sets (N.of_nat (length pre) + 1) (cells s) sets (fst ce0) Hok) as Hc.
+  destruct (set_of sets (fst ce0)) as [nv|] eqn:E; cbn [fst snd].
+  - rewrite <- Hc. apply inv_update; auto.
+  - apply (inv_update_same keq keyf pre s r); auto.
+Qed.
+
+(* ------------------------------------------------------------------ the update / delete loops *)
+Lemma len_snoc {A} (pre : list A) x : N.of_nat (length pre) + 1 = N.of_nat (length (pre ++ [x])).
+Proof. rewrite app_length. cbn. lia. Qed.
+
+Lemma len_snoc' {A} (pre : list A) x i : i = N.of_nat (length pre) -> i + 1 = N.of_nat (length (pre ++ [x])).
+Proof. intros ->. apply len_snoc. Qed.
+
+Lemma delete_from_inv c r : forall i pre h b t' h' b' n,
+  i = N.of_nat (length pre) ->
+  delete_from true i r c h b = (t', h', b', n) ->
+  ixs_inv hkeq hkf (pre ++ r) h -> ixs_inv okeq idf (pre ++ r) b ->
+  ixs_inv hkeq hkf (pre ++ t') h' /\ ixs_inv okeq idf (pre ++ t') b' /\ map cells t' = map cells r.
+Proof.
+  induction r as [|s r IH]; intros i pre h b t' h' b' n Hi H Hh Hb; cbn [delete_from] in H.
+  - injection H as <- <- <- <-. auto.
+  - destruct (alive s && evaluate c (i + 1, cells s)) eqn:Em.
+    + apply andb_true_iff in Em. destruct Em as [Ha _].
+      destruct (delete_from true (i + 1) r c _ _) as [[[t2 h2] b2] n2] eqn:E. injection H as <- <- <- <-.
+      destruct (IH (i + 1) (pre ++ [Slot false (cells s)]) _ _ _ _ _ _ (len_snoc' pre _ i Hi) E) as (A & B & C).
+      * subst i. rewrite <- app_assoc. cbn [app]. apply (ixs_delete hkeq hkf); [exact hkeq_sym|exact hkeq_trans|exact Ha|exact Hh].
+      * subst i. rewrite <- app_assoc. cbn [app]. apply (ixs_delete okeq idf); [exact okeq_sym|exact okeq_trans|exact Ha|exact Hb].
+      * rewrite <- app_assoc in A, B. cbn [app] in A, B. cbn [map cells]. rewrite C. auto.
+    + destruct (delete_from true (i + 1) r c _ _) as [[[t2 h2] b2] n2] eqn:E. injection H as <- <- <- <-.
+      destruct (IH (i + 1) (pre ++ [s]) _ _ _ _ _ _ (len_snoc' pre _ i Hi) E) as (A & B & C).
+      * rewrite <- app_assoc. exact Hh.
+      * rewrite <- app_assoc. exact Hb.
+      * rewrite <- app_assoc in A, B. cbn [app] in A, B. cbn [map]. rewrite C. auto.
+Qed.
+
+Lemma update_from_inv c sets r : forall i pre h b t' h' b' n,
+  i = N.of_nat (length pre) ->
+  update_from true i r c sets h b = (t', h', b', n) ->
+  (forall s, In s r -> sets_ok sets (length (cells s))) ->
+  ixs_inv hkeq hkf (pre ++ r) h -> ixs_inv okeq idf (pre ++ r) b ->
+  ixs_inv hkeq hkf (pre ++ t') h' /\ ixs_inv okeq idf (pre ++ t') b' /\
+  Forall2 (fun s s' => cells s' = cells s \/ cells s' = apply_sets (cells s) sets) r t'.
+Proof.
+  induction r as [|s r IH]; intros i pre h b t' h' b' n Hi H Hok Hh Hb; cbn [update_from] in H.
+  - injection H as <- <- <- <-. auto.
+  - destruct (alive s && evaluate c (i + 1, cells s)) eqn:Em.
+    + apply andb_true_iff in Em. destruct Em as [Ha _].
+      destruct (update_from true (i + 1) r c sets _ _) as [[[t2 h2] b2] n2] eqn:E. injection H as <- <- <- <-.
+      destruct (IH (i + 1) (pre ++ [Slot true (apply_sets (cells s) sets)]) _ _ _ _ _ _ (len_snoc' pre _ i Hi) E) as (A & B & C).
+      * intros s0 Hs0. apply Hok. right. exact Hs0.
+      * subst i. rewrite <- app_assoc. cbn [app]. apply (ixs_update hkeq hkf); [exact hkeq_refl|exact hkeq_sym|exact hkeq_trans|exact Ha|apply Hok; left; reflexivity|exact Hh].
+      * subst i. rewrite <- app_assoc. cbn [app]. apply (ixs_update okeq idf); [exact okeq_refl|exact okeq_sym|exact okeq_trans|exact Ha|apply Hok; left; reflexivity|exact Hb].
+      * rewrite <- app_assoc in A, B. cbn [app] in A, B. split; [exact A|]. split; [exact B|].
+        constructor; [right; reflexivity|exact C].
+    + destruct (update_from true (i + 1) r c sets _ _) as [[[t2 h2] b2] n2] eqn:E. injection H as <- <- <- <-.
+      destruct (IH (i + 1) (pre ++ [s]) _ _ _ _ _ _ (len_snoc' pre _ i Hi) E) as (A & B & C).
+      * intros s0 Hs0. apply Hok. right. exact Hs0.
+      * rewrite <- app_assoc. exact Hh.
+      * rewrite <- app_assoc. exact Hb.
+      * rewrite <- app_assoc in A, B. cbn [app] in A, B. split; [exact A|]. split; [exact B|].
+        constructor; [left; reflexivity|exact C].
+Qed.
+
+(* ------------------------------------------------------------------ building an index from scratch *)
+Lemma build_inv keq keyf col (todo : list row) :
+  (forall a, keq a a = true) -> (forall a b, keq a b = keq b a) ->
+  (forall a b c, keq a b = true -> keq b c = true -> keq a c = true) ->
+  forall done ix,
+  inv_R keq keyf col (fun i c => In (i, c) done) ix -> NoDup (map fst (done ++ todo)) ->
+  inv_R keq keyf col (fun i c => In (i, c) (done ++ todo))
+        (fold_left (fun ix r => ix_add keq ix (keyf (cell_of (fst r) (snd r) col)) (fst r)) todo ix).
+Proof.
+  intros R S T. induction todo as [|[i0 c0] todo IH]; intros done ix H Hnd; cbn [fold_left].
+  - rewrite app_nil_r. exact H.
+  - eapply inv_R_ext; [|apply (IH (done ++ [(i0, c0)]))].
+    + intros i c. cbn beta. rewrite <- app_assoc. reflexivity.
+    + cbn [fst snd]. eapply inv_R_ext; [|apply (inv_R_add keq R S T keyf col _ ix i0 c0 H)].
+      * intros i c. cbn beta. rewrite in_app_iff. cbn [In]. split.
+        -- intros [H1|[-> ->]]; [left; exact H1|right; left; reflexivity].
+        -- intros [H1|[H1|[]]]; [left; exact H1|injection H1 as <- <-; right; auto].
+      * intros cs Hin. rewrite map_app in Hnd. apply nodup_app_inv in Hnd. destruct Hnd as (_ & _ & Hd).
+        apply (Hd i0); [apply in_map_iff; exists (i0, cs); auto|left; reflexivity].
+    + rewrite <- app_assoc. exact Hnd.
+Qed.
+
+Lemma build_ix_inv keq keyf t col :
+  (forall a, keq a a = true) -> (forall a b, keq a b = keq b a) ->
+  (forall a b c, keq a b = true -> keq b c = true -> keq a c = true) ->
+  ix_inv keq keyf t col (build_ix keyf keq t col).
+Proof.
+  intros R S T. apply ix_inv_R. unfold build_ix.
+  apply (build_inv keq keyf col (live t) R S T [] []).
+  - apply inv_R_empty.
+  - cbn [app]. apply sorted_nodup_ids. apply live_from_sorted.
+Qed.
+
+(* ------------------------------------------------------------------ reachable states are good *)
+Definition good (st : state) : Prop :=
+  st_inv true st /\ valid_tbl (tbl st) /\ wt_table (sch st) (tbl st) /\ (length (sch st) <= 1000)%nat.
+
+Lemma st_inv_ixs st : st_inv true st <-> ixs_inv hkeq hkf (tbl st) (hidx st) /\ ixs_inv okeq idf (tbl st) (bidx st).
+Proof. reflexivity. Qed.
+
+Lemma good_init s : (length s <= 1000)%nat -> good (init s).
+Proof.
+  intros H. split; [split; constructor|]. split; [constructor|]. split; [constructor|exact H].
+Qed.
+
+Lemma valid_tbl_cells t : valid_tbl t <-> Forall (Forall valid_value) (map cells t).
+Proof. unfold valid_tbl. rewrite Forall_map. reflexivity. Qed.
+Lemma wt_table_cells s t : wt_table s t <-> Forall (wt_cells s) (map cells t).
+Proof. unfold wt_table. rewrite Forall_map. reflexivity. Qed.
+
+Lemma valid_row_wt s vals : valid_row s vals = true -> wt_cells s vals.
+Proof.
+  unfold valid_row. rewrite andb_true_iff, Nat.eqb_eq. intros [Hl Hf]. split; [exact Hl|].
+  intros i ty nl Hn. rewrite forallb_forall in Hf.
+  assert (Hi : (i < length vals)%nat) by (rewrite Hl; apply nth_error_Some; congruence).
+  specialize (Hf ((ty, nl), nth i vals VNull)).
+  assert (In ((ty, nl), nth i vals VNull) (combine s vals)).
+  { replace ((ty, nl), nth i vals VNull) with (nth i (combine s vals) ((ty, nl), VNull)).
+    - apply nth_In. rewrite combine_length. lia.
+    - rewrite combine_nth by (symmetry; exact Hl). f_equal. apply nth_error_nth. exact Hn. }
+  apply Hf in H. cbn [fst snd] in H. apply andb_true_iff in H. tauto.
+Qed.
+
+Lemma good_insert st vals :
+  good st -> Forall valid_value vals -> good (fst (insert true st vals)).
+Proof.
+  intros (Hi & Hv & Hw & Hn) Hvv. unfold insert. destruct (valid_row (sch st) vals) eqn:E; cbn [fst]; [|exact (conj Hi (conj Hv (conj Hw Hn)))].
+  apply st_inv_ixs in Hi. destruct Hi as [Hh Hb]. split; [|split; [|split]]; cbn [tbl sch hidx bidx].
+  - apply st_inv_ixs. cbn [tbl hidx bidx]. split.
+    + apply (ixs_insert hkeq hkf); auto using hkeq_refl, hkeq_sym. exact hkeq_trans.
+    + apply (ixs_insert okeq idf); auto using okeq_refl, okeq_sym. exact okeq_trans.
+  - unfold valid_tbl. apply Forall_app. split; [exact Hv|]. constructor; [exact Hvv|constructor].
+  - unfold wt_table. apply Forall_app. split; [exact Hw|]. constructor; [apply valid_row_wt; exact E|constructor].
+  - exact Hn.
+Qed.
+
+Lemma good_delete st c : good st -> good (fst (delete true st c)).
+Proof.
+  intros (Hi & Hv & Hw & Hn). unfold delete.
+  destruct (delete_from true 0 (tbl st) c (hidx st) (bidx st)) as [[[t' h'] b'] n] eqn:E. cbn [fst].
+  apply st_inv_ixs in Hi. destruct Hi as [Hh Hb].
+  destruct (delete_from_inv c (tbl st) 0 [] _ _ _ _ _ _ eq_refl E Hh Hb) as (A & B & C). cbn [app] in A, B.
+  split; [|split; [|split]]; cbn [tbl sch hidx bidx].
+  - apply st_inv_ixs. auto.
+  - apply valid_tbl_cells. rewrite C. apply valid_tbl_cells. exact Hv.
+  - apply wt_table_cells. rewrite C. apply wt_table_cells. exact Hw.
+  - exact Hn.
+Qed.
+
+Lemma valid_sets_spec s sets c v :
+  valid_sets s sets = true -> In (c, v) sets ->
+  exists ty nl, nth_error s (N.to_nat c) = Some (ty, nl) /\ has_type ty v = true.
+Proof.
+  unfold valid_sets. rewrite forallb_forall. intros H Hin. specialize (H _ Hin). cbn [fst snd] in H.
+  destruct (nth_error s (N.to_nat c)) as [[ty nl]|]; [|discriminate]. apply andb_true_iff in H. exists ty, nl. tauto.
+Qed.
+
+Lemma forall_set_nth {A} (P : A -> Prop) l n x : Forall P l -> P x -> Forall P (set_nth l n x).
+Proof.
+  revert n. induction l as [|a l IH]; intros [|n] Hl Hx; cbn; auto; inversion Hl; subst; constructor; auto.
+Qed.
+Lemma forall_apply_sets (P : value -> Prop) cs sets :
+  Forall P cs -> Forall P (map snd sets) -> Forall P (apply_sets cs sets).
+Proof.
+  unfold apply_sets. revert cs. induction sets as [|[c v] r IH]; intros cs Hc Hs; cbn [fold_left]; [exact Hc|].
+  cbn [map snd] in Hs. inversion Hs; subst. apply IH; [apply forall_set_nth; assumption|assumption].
+Qed.
+
+Lemma wt_apply_sets s cs sets :
+  wt_cells s cs -> valid_sets s sets = true -> NoDup (map fst sets) -> wt_cells s (apply_sets cs sets).
+Proof.
+  intros [Hl Ht] Hvs Hnd. split; [rewrite apply_sets_length; exact Hl|].
+  intros i ty nl Hn.
+  assert (Hlt : forall c v, In (c, v) sets -> (N.to_nat c < length cs)%nat).
+  { intros c v Hin. destruct (valid_sets_spec _ _ _ _ Hvs Hin) as (ty' & nl' & Hn' & _).
+    rewrite Hl. apply nth_error_Some. congruence. }
+  pose proof (nth_apply_sets cs sets (N.of_nat i) Hnd Hlt) as Hnth. rewrite Nat2N.id in Hnth. rewrite Hnth.
+  destruct (set_of sets (N.of_nat i)) as [nv|] eqn:Es; [|eapply Ht; exact Hn].
+  apply set_of_in in Es. destruct Es as (c' & Hin & ->).
+  destruct (valid_sets_spec _ _ _ _ Hvs Hin) as (ty' & nl' & Hn' & Hty). rewrite Nat2N.id in Hn'. congruence.
+Qed.
+
+Lemma good_update st c sets :
+  good st -> Forall valid_value (map snd sets) -> NoDup (map fst sets) ->
+  good (fst (update true st c sets)).
+Proof.
+  intros (Hi & Hv & Hw & Hn) Hvs Hnd. unfold update.
+  destruct (valid_sets (sch st) sets) eqn:Evs; [|cbn [fst]; exact (conj Hi (conj Hv (conj Hw Hn)))].
+  destruct (update_from true 0 (tbl st) c sets (hidx st) (bidx st)) as [[[t' h'] b'] n] eqn:E. cbn [fst].
+  apply st_inv_ixs in Hi. destruct Hi as [Hh Hb].
+  assert (Hok : forall s, In s (tbl st) -> sets_ok sets (length (cells s))).
+  { intros s Hs. unfold wt_table in Hw. rewrite Forall_forall in Hw. destruct (Hw _ Hs) as [Hl _].
+    split; [exact Hnd|]. split; [|rewrite Hl; exact Hn].
+    intros c0 v0 Hin. destruct (valid_sets_spec _ _ _ _ Evs Hin) as (ty & nl & Hn' & _).
+    rewrite Hl. apply nth_error_Some. congruence. }
+  destruct (update_from_inv c sets (tbl st) 0 [] _ _ _ _ _ _ eq_refl E Hok Hh Hb) as (A & B & C). cbn [app] in A, B.
+  split; [|split; [|split]]; cbn [tbl sch hidx bidx].
+  - apply st_inv_ixs. auto.
+  - unfold valid_tbl in *. clear - C Hv Hvs. induction C as [|s s' r r' Hs C IH]; [constructor|].
+    inversion Hv; subst. constructor; [|apply IH; assumption].
+    destruct Hs as [->| ->]; [assumption|apply forall_apply_sets; assumption].
+  - unfold wt_table in *. clear - C Hw Evs Hnd. induction C as [|s s' r r' Hs C IH]; [constructor|].
+    inversion Hw; subst. constructor; [|apply IH; assumption].
+    destruct Hs as [->| ->]; [assumption|apply wt_apply_sets; assumption].
+  - exact Hn.
+Qed.
+
+Lemma ixs_drop keq keyf t ixs col : ixs_inv keq keyf t ixs -> ixs_inv keq keyf t (drop_ix ixs col).
+Proof.
+  unfold ixs_inv, drop_ix. rewrite !Forall_forall. intros H ce Hin. apply filter_In in Hin. apply H. tauto.
+Qed.
+
+Lemma good_ddl st kind col : good st -> good (fst (ddl true st kind col)).
+Proof.
+  intros (Hi & Hv & Hw & Hn). apply st_inv_ixs in Hi. destruct Hi as [Hh Hb]. unfold ddl.
+  destruct (kind =? 0).
+  { destruct (col_ok (sch st) col && negb (has_ix (hidx st) col)); cbn [fst]; [|exact (conj (conj Hh Hb) (conj Hv (conj Hw Hn)))].
+    split; [|exact (conj Hv (conj Hw Hn))]. apply st_inv_ixs. cbn [tbl hidx bidx]. split; [|exact Hb].
+    apply Forall_app. split; [exact Hh|]. constructor; [|constructor]. cbn [fst snd].
+    apply (build_ix_inv hkeq hkf); [exact hkeq_refl|exact hkeq_sym|exact hkeq_trans]. }
+  destruct (kind =? 1).
+  { destruct (col_ok (sch st) col && negb (has_ix (bidx st) col)); cbn [fst]; [|exact (conj (conj Hh Hb) (conj Hv (conj Hw Hn)))].
+    split; [|exact (conj Hv (conj Hw Hn))]. apply st_inv_ixs. cbn [tbl hidx bidx]. split; [exact Hh|].
+    apply Forall_app. split; [exact Hb|]. constructor; [|constructor]. cbn [fst snd].
+    apply (build_ix_inv okeq idf); [exact okeq_refl|exact okeq_sym|exact okeq_trans]. }
+  destruct (kind =? 2).
+  { destruct (has_ix (hidx st) col); cbn [fst]; [|exact (conj (conj Hh Hb) (conj Hv (conj Hw Hn)))].
+    split; [|exact (conj Hv (conj Hw Hn))]. apply st_inv_ixs. cbn [tbl hidx bidx]. split; [apply ixs_drop; exact Hh|exact Hb]. }
+  destruct (has_ix (bidx st) col); cbn [fst]; [|exact (conj (conj Hh Hb) (conj Hv (conj Hw Hn)))].
+  split; [|exact (conj Hv (conj Hw Hn))]. apply st_inv_ixs. cbn [tbl hidx bidx]. split; [exact Hh|apply ixs_drop; exact Hb].
+Qed.
+
+(* ------------------------------------------------------------------ histories *)
+Inductive op :=
+| OInsert (vals : list value)
+| OUpdate (c : cond) (sets : list (N * value))
+| ODelete (c : cond)
+| ODdl (kind col : N).
+Definition op_ok (o : op) : Prop :=
+  match o with
+  | OInsert vals => Forall valid_value vals
+  | OUpdate _ sets => Forall valid_value (map snd sets) /\ NoDup (map fst sets)
+  | _ => True
+  end.
+Definition step (st : state) (o : op) : state :=
+  match o with
+  | OInsert vals => fst (insert true st vals)
+  | OUpdate c sets => fst (update true st c sets)
+  | ODelete c => fst (delete true st c)
+  | ODdl kind col => fst (ddl true st kind col)
+  end.
+Definition run (s : schema) (ops : list op) : state := fold_left step ops (init s).
+
+Lemma good_step st o : good st -> op_ok o -> good (step st o).
+Proof.
+  destruct o; cbn [step op_ok]; intros G H.
+  - apply good_insert; assumption.
+  - destruct H. apply good_update; assumption.
+  - apply good_delete; assumption.
+  - apply good_ddl; assumption.
+Qed.
+
+Theorem good_run s ops : (length s <= 1000)%nat -> Forall op_ok ops -> good (run s ops).
+Proof.
+  intros Hs. unfold run. generalize (good_init s Hs). generalize (init s).
+  induction ops as [|o ops IH]; intros st G Hok; cbn [fold_left]; [exact G|].
+  inversion Hok; subst. apply IH; [apply good_step; assumption|assumption].
+Qed.
+
+(* update and delete touch exactly the rows of `scan` *)
+Lemma update_from_live c sets : forall r i h b t' h' b' n,
+  update_from true i r c sets h b = (t', h', b', n) ->
+  live_from i t' = map (fun x => if evaluate c x then (fst x, apply_sets (snd x) sets) else x) (live_from i r) /\
+  n = N.of_nat (length (filter (evaluate c) (live_from i r))).
+Proof.
+  induction r as [|s r IH]; intros i h b t' h' b' n H; cbn [update_from] in H.
+  - injection H as <- <- <- <-. auto.
+  - destruct (alive s) eqn:Ea; cbn [andb] in H.
+    + destruct (evaluate c (i + 1, cells s)) eqn:Ee.
+      * destruct (update_from true (i + 1) r c sets _ _) as [[[t2 h2] b2] n2] eqn:E. injection H as <- <- <- <-.
+        destruct (IH _ _ _ _ _ _ _ E) as [A B]. cbn [live_from alive cells]. rewrite Ea. cbn [app map filter].
+        rewrite Ee, A, B. cbn [fst snd length]. split; [reflexivity|lia].
+      * destruct (update_from true (i + 1) r c sets _ _) as [[[t2 h2] b2] n2] eqn:E. injection H as <- <- <- <-.
+        destruct (IH _ _ _ _ _ _ _ E) as [A B]. cbn [live_from]. rewrite Ea. cbn [app map filter].
+        rewrite Ee, A, B. split; reflexivity.
+    + destruct (update_from true (i + 1) r c sets _ _) as [[[t2 h2] b2] n2] eqn:E. injection H as <- <- <- <-.
+      destruct (IH _ _ _ _ _ _ _ E) as [A B]. cbn [live_from]. rewrite Ea. cbn [app]. auto.
+Qed.
+
+Lemma delete_from_live c : forall r i h b t' h' b' n,
+  delete_from true i r c h b = (t', h', b', n) ->
+  live_from i t' = filter (fun x => negb (evaluate c x)) (live_from i r) /\
+  n = N.of_nat (length (filter (evaluate c) (live_from i r))).
+Proof.
+  induction r as [|s r IH]; intros i h b t' h' b' n H; cbn [delete_from] in H.
+  - injection H as <- <- <- <-. auto.
+  - destruct (alive s) eqn:Ea; cbn [andb] in H.
+    + destruct (evaluate c (i + 1, cells s)) eqn:Ee.
+      * destruct (delete_from true (i + 1) r c _ _) as [[[t2 h2] b2] n2] eqn:E. injection H as <- <- <- <-.
+        destruct (IH _ _ _ _ _ _ _ E) as [A B]. cbn [live_from alive cells]. rewrite Ea. cbn [app filter].
+        rewrite Ee, A, B. cbn [negb length]. split; [reflexivity|lia].
+      * destruct (delete_from true (i + 1) r c _ _) as [[[t2 h2] b2] n2] eqn:E. injection H as <- <- <- <-.
+        destruct (IH _ _ _ _ _ _ _ E) as [A B]. cbn [live_from]. rewrite Ea. cbn [app filter].
+        rewrite Ee, A, B. cbn [negb]. split; reflexivity.
+    + destruct (delete_from true (i + 1) r c _ _) as [[[t2 h2] b2] n2] eqn:E. injection H as <- <- <- <-.
+      destruct (IH _ _ _ _ _ _ _ E) as [A B]. cbn [live_from]. rewrite Ea. cbn [app]. auto.
+Qed.
+
+Theorem update_exact st c sets st' n :
+  update true st c sets = (st', Some n) ->
+  live (tbl st') = map (fun r => if evaluate c r then (fst r, apply_sets (snd r) sets) else r) (live (tbl st)) /\
+  n = N.of_nat (length (scan (tbl st) c)).
+Proof.
+  unfold update. destruct (valid_sets (sch st) sets); [|discriminate].
+  destruct (update_from true 0 (tbl st) c sets (hidx st) (bidx st)) as [[[t' h'] b'] n'] eqn:E.
+  intros [= <- <-]. cbn [tbl]. apply (update_from_live c sets _ _ _ _ _ _ _ _ E).
+Qed.
+
+Theorem delete_exact st c st' n :
+  delete true st c = (st', Some n) ->
+  live (tbl st') = filter (fun r => negb (evaluate c r)) (live (tbl st)) /\
+  n = N.of_nat (length (scan (tbl st) c)).
+Proof.
+  unfold delete.
+  destruct (delete_from true 0 (tbl st) c (hidx st) (bidx st)) as [[[t' h'] b'] n'] eqn:E.
+  intros [= <- <-]. cbn [tbl]. apply (delete_from_live c _ _ _ _ _ _ _ _ E).
+Qed.
+
+(* every strategy on every reachable state *)
+Theorem strategies_exact s ops c lim off col :
+  (length s <= 1000)%nat -> Forall op_ok ops -> valid_cond c ->
+  let st := run s ops in
+  let exact := scan (tbl st) c in
+  select true st c = exact /\
+  select_columnar true st c = exact /\
+  select_with_limit true st c lim off = firstn (N.to_nat lim) (skipn (N.to_nat off) exact) /\
+  select_iter true st c lim off = (if lim =? 0 then skipn (N.to_nat off) exact
+                                   else firstn (N.to_nat lim) (skipn (N.to_nat off) exact)) /\
+  count true st c = N.of_nat (length exact) /\
+  agg_min true st c col = agg_best Lt col exact /\
+  agg_max true st c col = agg_best Gt col exact.
+Proof.
+  intros Hs Hok Hc st exact. destruct (good_run s ops Hs Hok) as (Hi & Hv & Hw & Hn). fold st in Hi, Hv, Hw, Hn.
+  split; [apply select_exact; assumption|].
+  split; [apply select_columnar_exact; assumption|].
+  split; [apply select_with_limit_exact; assumption|].
+  split; [apply select_iter_exact; assumption|].
+  split; [apply count_exact; assumption|].
+  apply agg_exact; assumption.
+Qed.
